@@ -29,6 +29,9 @@ public:
     static std::string getFormalArgBaseNameForSymbol(
         Logic const & logic, SymRef sr,
         std::string const & formalArgDefaultPrefix); // Return a string that is not equal to the argument
+    // A formal argument may be called `name` only if that creates no overloading: every symbol of this name is a
+    // nullary symbol of the same sort (then it is the same variable)
+    static bool isFormalArgNameFree(Logic & logic, std::string const & name, SRef sort);
 
     [[nodiscard]] std::unique_ptr<Model> extend(std::span<std::pair<PTRef, PTRef>> extension) const;
     [[nodiscard]] std::unique_ptr<Model> extend(PTRef var, PTRef val) const;
